@@ -525,6 +525,22 @@ pub fn gen(rng: &mut Rng, _index: u64) -> String {
         };
         return format!("C14.valid {}", proto::geom(&g));
     }
+    if rng.chance(1, 30) {
+        // needles: valid polygons with a very acute vertex at coordinates of 2^26 … 2^30 (twice the area is exactly 1
+        // or 2): a rounded cross product calls the two sides at the tip collinear — a spike — the exact one does not
+        let n = rng.range(1 << 26, 1 << 30);
+        let (sw, fx) = (rng.chance(1, 2), rng.chance(1, 2));
+        let c = |x: i64, y: i64| { let (x, y) = if sw { (y, x) } else { (x, y) }; Coord { x: if fx { -(x as f64) } else { x as f64 }, y: y as f64 } };
+        let tip = c(0, 0);
+        let ring = match rng.below(3) {
+            0 => vec![tip, c(n + 1, n), c(n, n - 1), tip],
+            1 => vec![c(n + 1, n), c(n, n - 1), tip, c(n + 1, n)],
+            _ => vec![tip, c(n + 2, n + 1), c(n + 1, n), c(n, n - 1), tip],   // needle with a collinear point on its far side? no: (n+2,n+1),(n+1,n),(n,n-1) are collinear
+        };
+        let p = Polygon::new(LineString(ring), vec![]);
+        let g = if rng.chance(1, 3) { Geometry::MultiPolygon(MultiPolygon(vec![p])) } else { Geometry::Polygon(p) };
+        return format!("C14.valid {}", proto::geom(&g));
+    }
     let g = if rng.chance(1, 4) {
         // the valid stream of the shared generators, in two representations
         let g = gen_valid(rng, k);
